@@ -60,9 +60,31 @@ def ragged_table(r):
     return "\n".join([head, delim] + [x for x in rows if x.strip(" |")]) + r.choice(["\n", "\nWd Wd\n", "\n\n"])
 
 
+def inline_hot(r):
+    """an emphasis / strong / link-text span that holds complete inline constructs and then one that straddles its closer (the
+    parser looks ahead at such constructs to decide precedence: what it parses speculatively must not be emitted as well)"""
+    op, cl = r.choice([("*", "*"), ("**", "**"), ("_", "_"), ("[", "](/Wd)"), ("[", "][Wd]"), ("![", "](/Wd 'Wd')"), ("~~", "~~"), ("==", "==")])
+    whole = lambda: r.choice(["`Wd`", "[Wd](/Wd)", "<b Wd>", "![Wd](/Wd \"Wd\")", "<http://Wd.Wd>", "`` Wd ` Wd ``", "[Wd][Wd]", "<Wd@Wd.Wd>", "\\*", "Wd"])  # noqa
+    a, b = r.choice([("`Wd", " Wd`"), ("[Wd", " Wd](/Wd)"), ("<b Wd=\"", "Wd\">"), ("<http://Wd", ".Wd>"), ("``Wd", "Wd``"), ("![Wd", "Wd](/Wd)")])
+    mid = " ".join(whole() for _ in range(r.randint(0, 3)))
+    line = "Wd %sWd %s %s%s%s Wd" % (op, mid, a, cl, b)
+    if r.random() < 0.3:
+        line += " " + " ".join(whole() for _ in range(r.randint(1, 2)))
+    return r.choice(["", "", "# ", "> ", "- "]) + line + "\n" + r.choice(["", "\n[Wd]: /Wd\n"])
+
+
 def hot_block(r):
     k = r.random()
-    if k < 0.3:
+    if k < 0.12:
+        return inline_hot(r)
+    if k < 0.22:
+        # runs of ruby groups with link tails (the groups are flushed one by one; a tail applies to the last group)
+        g = lambda: "[Wd(Wd)]"  # noqa
+        return "Wd " + "".join(g() for _ in range(r.randint(1, 3))) + r.choice(["(/Wd)", "(/Wd 'Wd')", "[Wd]", "[Wd]", "[]", "(", "[Wd(Wd)"]) + " Wd\n\n[Wd]: /Wd\n"
+    if k < 0.26:
+        # definition lists whose "term" is itself a colon line (no paragraph above that could serve as the term)
+        return r.choice([": Wd Wd\n: Wd\n", "# Wd\n: Wd\n: Wd\n  Wd\n", "Wd\n\n\n: Wd Wd\n: Wd\n", "***\n:   Wd\n:   Wd\n\n    Wd\n", ": Wd\n: Wd\n: Wd\nWd\n"])
+    if k < 0.38:
         return ref_def(r)
     if k < 0.55:
         return ragged_table(r)
@@ -144,6 +166,11 @@ def tree_words(tokens, env, escape_url):
                 # an autolink shows its destination as its text: one source occurrence, two by construction (words are unique in
                 # the input, so an explicit link can never have text equal to its destination)
                 a.pop("url")
+            if "ref" in t:
+                # a resolved reference link shows the destination and title OF ITS DEFINITION (counted once, in the reference table);
+                # what the use site itself contributes is its text and its label
+                a.pop("url", None)
+                a.pop("title", None)
             for k in ("url", "title", "info", "alt", "rt"):
                 add(a.get(k))
             add(t.get("label"))
@@ -258,6 +285,12 @@ def oracle(ctx, extra):
         else:
             base = gen_docs.noise(r)
         doc, nw = uniquify(base)
+        if r.random() < 0.5:
+            # words are unique, so no reference would ever meet its definition: let one use site carry the label of one definition
+            dm = re.search(r"^ {0,3}\[(w\d+q)\]: ", doc, re.M)
+            um = re.search(r"\]\[(w\d+q)\]", doc)
+            if dm and um:
+                doc = doc[:um.start(1)] + dm.group(1) + doc[um.end(1):]
         if check_doc(m, doc, plugins, fails):
             n += 1
             words += nw
@@ -265,7 +298,7 @@ def oracle(ctx, extra):
         if len(fails) >= 5:
             break
     return {"evaluations": n, "distinct_nontrivial": len(seen), "failures": fails, "unique_words_accounted": words,
-            "rule": "documents (30% accounting hot spots - reference definitions with titles on the same / next line, trailing text, multi-line labels, ragged pipe and pipe-less tables, definition lists, HTML blocks of all 7 kinds, fences and indented code, setext and ATX headings, plugin inlines - nested 0-3 levels deep in quotes and list items with lazy continuation lines; 25% generated, 20% interrupt/lazy fragments, 15% mutated, 10% noise) in which every word has been "
+            "rule": "documents (30% accounting hot spots - spans with complete inline constructs followed by one that straddles the closer, definition lists without a term line, reference definitions with titles on the same / next line, trailing text, multi-line labels, ragged pipe and pipe-less tables, definition lists, HTML blocks of all 7 kinds, fences and indented code, setext and ATX headings, plugin inlines - nested 0-3 levels deep in quotes and list items with lazy continuation lines; 25% generated, 20% interrupt/lazy fragments, 15% mutated, 10% noise) in which every word has been "
                     "replaced by a unique token; configurations: core / 12 plugins without out-of-band definitions / random subsets "
                     "with or without speedup; each token must occur exactly once in the tree (raw, url, title, info, label) or in "
                     "env['ref_links']; failures are shrunk by delta debugging; distinct by text",
